@@ -292,10 +292,18 @@ where
         // place all probability mass on a single symbol).
         assert!(support.end() > support.start());
 
-        let support_size_minus_one = support.end().wrapping_sub(support.start()).as_();
+        // Calculate the size of the support in a wide integer type rather than by narrowing
+        // (or sign extending) a difference of `Symbol`s to `Probability`: the `Symbol` type may
+        // be wider than `Probability`, or it may be a narrower signed type.
+        let support_size_minus_one = support
+            .end()
+            .to_i128()
+            .zip(support.start().to_i128())
+            .and_then(|(end, start)| end.checked_sub(start))
+            .and_then(num_traits::cast::<i128, Probability>);
         let max_probability = Probability::max_value() >> (Probability::BITS - PRECISION);
-        let free_weight = max_probability
-            .checked_sub(&support_size_minus_one)
+        let free_weight = support_size_minus_one
+            .and_then(|support_size_minus_one| max_probability.checked_sub(&support_size_minus_one))
             .expect("The support is too large to assign a nonzero probability to each element.")
             .into();
 
